@@ -126,6 +126,10 @@ type Party struct {
 	DBOpts  []channeldb.OptionModifier
 	Opener  bool
 	Reloads int
+	// Stale is a second handle on the same channel, loaded from the same
+	// database when the node (re)started and never refreshed - what the
+	// chain watcher, funding manager or closer hold in production.
+	Stale *chanstate.OpenChannel
 }
 
 // World is a pair of parties sharing one channel.
@@ -354,7 +358,18 @@ func NewWorld(r *simcore.Run, cfg Config) *World {
 	kb, err := w.B.Chan.NextRevocationKey()
 	r.Must(err, "next rev key")
 	r.Must(w.A.Chan.InitNextRevocation(kb), "init next rev")
+	w.A.LoadStale(r)
+	w.B.LoadStale(r)
 	return w
+}
+
+// LoadStale (re)loads the secondary handle from the database.
+func (p *Party) LoadStale(r *simcore.Run) {
+	chans, err := p.DB.ChannelStateDB().FetchOpenChannels(p.IDPub)
+	if err != nil || len(chans) != 1 {
+		r.Fail("reload-error", "%s: FetchOpenChannels for a secondary handle: n=%d err=%v", p.Name, len(chans), err)
+	}
+	p.Stale = chans[0]
 }
 
 func initiatorKey(s *chanstate.OpenChannel) *btcec.PublicKey {
@@ -397,6 +412,7 @@ func (w *World) Reload(p *Party) error {
 		return err
 	}
 	p.Chan = ch
+	p.LoadStale(w.R)
 	return nil
 }
 
